@@ -27,13 +27,20 @@ func runC10(r *vhlib.Run) {
 		if c.Name == "flate" {
 			extra = 6 // corpus: dynamic blocks with a long end-of-block code that stop short of it (D10)
 		}
+		if c.Name == "bzip2" {
+			extra = 8 // corpus: a dead prefix of an under-subscribed tree right before the end of the input (D11)
+		}
 		for i := 0; i < n+extra; i++ {
 			s := c.Valid(rng, maxPlain)
 			if i%3 == 2 {
 				s = gen.Stream{Data: gen.Mutate(rng, s.Data), Kind: "mutated"}
 			}
-			if i >= n {
+			if i >= n && c.Name == "flate" {
 				s = gen.Stream{Data: longEOBWitness(rng, (i-n)%3, 9+rng.Intn(7)), Kind: "long-eob-stops-short"}
+			}
+			if i >= n && c.Name == "bzip2" {
+				long := 5 + rng.Intn(16)
+				s = gen.Stream{Data: gen.BzOverRequestDead(long, 3+rng.Intn(long-3), (i-n)%4).Data, Kind: "dead-prefix-before-end"}
 			}
 			base := observe(c, s.Data, kinds[0], []int{4096}, rng)
 			replay := map[string]interface{}{"codec": c.Name, "input": vhlib.Hex(s.Data)}
@@ -70,12 +77,25 @@ func runC10(r *vhlib.Run) {
 							r.Violate("delivered-bytes-inconsistent", fmt.Sprintf("%s src=%s", c.Name, sk.Name), rp)
 						}
 						if o.Cls != base.Cls && c.Name == "flate" && sk.Name == "ByteReader" && o.Cls == "UEOF" && base.Cls == "Corrupted" &&
-							o.In == int64(len(s.Data)) && base.In >= int64(len(s.Data))-2 {
+							o.In == int64(len(s.Data)) && base.In >= int64(len(s.Data))-2 &&
+							observe(c, append(append([]byte{}, s.Data...), 0, 0), sk, sched, rng).Cls == "Corrupted" {
 							// known finding D10: with a ReadByte-only source the decoder asks for as many
 							// bits as the end-of-block code is long before decoding ANY literal/length
 							// symbol; an invalid stream whose violation lies in its last two bytes then
 							// runs out of input first
 							r.Violate("bytereader-eof-before-corruption-at-end", fmt.Sprintf("flate src=ByteReader: %s where every buffered source reports %s (violation within the last %d bytes of a %d-byte input)", o.Cls, base.Cls, int64(len(s.Data))-base.In, len(s.Data)), rp)
+						} else if o.Cls != base.Cls && c.Name == "bzip2" && o.Cls == "UEOF" && base.Cls == "Corrupted" &&
+							o.In == int64(len(s.Data)) && base.In >= int64(len(s.Data))-3 &&
+							observe(c, append(append([]byte{}, s.Data...), 0, 0, 0), sk, sched, rng).Cls == "Corrupted" {
+							// (with three more bytes to hand out the same source reports Corrupted: the
+							// request only overshoots the end of the input)
+							// known finding D11: the table walk of ReadSymbol starts from the bits the bit
+							// buffer happens to hold, zero-extended; in the non-canonical tables built for
+							// under-subscribed trees that can select a LONGER code than the one the stream
+							// continues with, and the bit reader asks for that many bits; a dead prefix
+							// within the last three bytes of the input then runs out of input first when the
+							// source hands out its data in small pieces
+							r.Violate("bzip2-eof-before-dead-prefix-at-end", fmt.Sprintf("bzip2 src=%s: %s where bytes.Reader reports %s (violation within the last %d bytes of a %d-byte input)", sk.Name, o.Cls, base.Cls, int64(len(s.Data))-base.In, len(s.Data)), rp)
 						} else if o.Cls != base.Cls {
 							r.Violate("error-class-depends-on-driver", fmt.Sprintf("%s src=%s sched=%v: %s vs %s", c.Name, sk.Name, sched[0], o.Cls, base.Cls), rp)
 						}
